@@ -37,6 +37,7 @@ func c03(c *core.Ctx) map[string]interface{} {
 	r3clone(c)
 	r3mask(c)
 	r3pure(c)
+	r3seqof(c)
 	return map[string]interface{}{"ngap_types": len(s.Types)}
 }
 
